@@ -43,6 +43,8 @@ def cases(tier):
                     for h in (0.05, 0.3):
                         for nz in (0, 2):
                             yield {'dims': list(dims), 'H': hk, 'r': rk, 'h': h, 'nz': nz}
+                    # exactly one step
+                    yield {'dims': list(dims), 'H': hk, 'r': rk, 'h': 0.3, 'nz': 0, 'nsteps': 1}
                     # a REAL initial state (the flow is complex all the same)
                     yield {'dims': list(dims), 'H': hk, 'r': rk, 'h': 0.3, 'nz': 0, 'x0': 'real'}
 
@@ -146,7 +148,7 @@ def run_case(case, seed):
     ismax = list(rk) == max_ranks(dims)
     local = kind.startswith('local')
     representable = ismax or local or d == 1
-    nsteps = 3
+    nsteps = case.get('nsteps', 3)
     exact = [sl.expm(-1j * h * k * H) @ x0 for k in range(nsteps + 1)]
     if nz == 2:
         exact = [e / np.linalg.norm(e) if k > 0 else e for k, e in enumerate(exact)]
